@@ -52,7 +52,7 @@ def _bind(fn, rr, wr, ri, wi, wm):
     rb, rp = fn.params[0]["n"], fn.params[1]["n"]
     return {rb: 0x1000, rp: 0x2000, rp + "->round_num": rr, rb + "->round_num": wr, rp + "->iov_index": ri,
             rb + "->iov_index": wi, rb + "->iov_index_max": wm, rp + "->iov_off": 0, rb + "->size": 4096,
-            "%s->iov[%s->iov_index].iov_len" % (rb, rp): 100}
+            "%s->iov[%s->iov_index].iov_len" % (rb, rp): 100, "%s->iov[%s->iov_index].iov_len" % (rb, rb): 50}
 
 
 def validity_siblings(rep, u, na="r_buf_rpos_check", nb="r_buf_rpos_check_fast"):
@@ -127,6 +127,189 @@ def resync_rule(rep, u, fname="r_buf_rpos_check"):
         rep.undecided("R-STATE", fa, "resync", desc, undec)
     else:
         rep.proved("R-STATE", fa, "resync", desc, "%d orderings" % n)
+    return n
+
+
+def round_compare_rule(rep, u):
+    """R-WRAP (sequence counters): round_num wraps through 0 on a long-running ring.  Two round counters may be tested for
+    equality (also with + 1, reduced to size_t) or compared through their *difference*; an ordering comparison with a
+    round counter on both sides gives the wrong answer across the wrap."""
+    n = 0
+    for fn in u.function_list:
+        if fn.relfile() != SRC or not fn.has_cfg:
+            continue
+        for pos, root, x, ps in fn.nodes():
+            if not (x.get("k") == "bin" and x["op"] in ("<", ">", "<=", ">=")):
+                continue
+            sides = [any(y.get("k") == "mem" and y.get("f") == "round_num" for y, _ in walk(sd)) for sd in (x["x"], x["y"])]
+            if not all(sides):
+                continue
+            n += 1
+            rep.functions.add(fn.name)
+            rep.violated("R-WRAP", fn, "round-ordering#%d" % n, "%s: round counters are compared by equality or through their difference" % fn.name,
+                         "%s at line %s orders two round counters: once the writer's counter has wrapped through 0 a reader that is many rounds behind "
+                         "looks 'ahead' (and is told that nothing was dropped)" % (key(x)[:80], x.get("ln")), x.get("ln"))
+    if n == 0:
+        rep.proved("R-WRAP", "", "round-ordering", "no ordering comparison between two round counters in %s" % SRC, "", file=SRC, unit=SRC)
+    return n
+
+
+def last_block_writers(rep, u, field="iov_index_max"):
+    """iov_index_max is the index of the last block of the *previous* round: readers one round behind use it to know where
+    that round ended.  It is a property of the round change, so it is stored only where round_num is bumped; a commit in the
+    new round that raises it makes a reader that had consumed the whole previous round look overrun."""
+    n = 0
+    for fn in u.function_list:
+        if fn.relfile() != SRC or not fn.has_cfg:
+            continue
+        for pos, root, x, ps in fn.nodes():
+            if not (x.get("k") == "bin" and x["op"].endswith("=") and x["op"] not in ("==", "!=", "<=", ">=") and
+                    strip_casts(x["x"]).get("k") == "mem" and strip_casts(x["x"]).get("f") == field):
+                continue
+            n += 1
+            rep.functions.add(fn.name)
+            # a round bump in the same block (straight-line) or dominated region
+            bump = any(core.step_of(y) is not None and strip_casts(core.step_of(y)[0]).get("f") == "round_num"
+                       for e in fn.blocks[pos[0]].elems for y, _ in walk(e))
+            desc = "%s: %s is stored together with the round change" % (fn.name, field)
+            (rep.proved if bump else rep.violated)(
+                "R-OWN", fn, "last-block-store#%d" % n, desc,
+                "" if bump else "stored at line %s without a round change: the mark of where the previous round ended moves while readers of that round "
+                "are still behind it" % x.get("ln"), x.get("ln"))
+    return n
+
+
+def resync_target_rule(rep, u):
+    """a reader that is resynchronised to the writer must be left at the first block that has not been delivered: the
+    writer's current block if that block is still empty (being filled), the one after it if it has been committed.  Every
+    store `rpos->iov_index = r_buf->iov_index + 1` must therefore be conditional on the current block's length."""
+    n = 0
+    for fn in u.function_list:
+        if fn.relfile() != SRC or not fn.has_cfg:
+            continue
+        for pos, root, x, ps in fn.nodes():
+            if not (x.get("k") == "bin" and x["op"] == "=" and strip_casts(x["x"]).get("k") == "mem" and strip_casts(x["x"]).get("f") == "iov_index"):
+                continue
+            rv = strip_casts(x["y"])
+            if not (rv.get("k") == "bin" and rv.get("op") == "+" and any(y.get("k") == "mem" and y.get("f") == "iov_index" for y, _ in walk(rv))):
+                continue
+            obj = strip_casts(strip_casts(x["x"])["b"])
+            if key(obj) == key(strip_casts(next(y for y, _ in walk(rv) if y.get("k") == "mem" and y.get("f") == "iov_index")["b"])):
+                continue            # same object: an increment, not a resynchronisation
+            n += 1
+            rep.functions.add(fn.name)
+            uses_len = any(y.get("k") == "mem" and y.get("f") == "iov_len" for y, _ in walk(rv))
+            guarded = False
+            for bid in fn.reachable_blocks():
+                c = fn.blocks[bid].cond
+                if c is not None and bid != pos[0] and fn.dominates(bid, pos[0]) and "iov_len" in key(c) and "iov_index]" in key(c) and \
+                        key(obj) not in key(c).split("iov_len")[0][-40:]:
+                    guarded = True
+            desc = "%s: the resynchronised position depends on whether the writer's current block is committed" % fn.name
+            (rep.proved if uses_len or guarded else rep.violated)(
+                "R-STATE", fn, "resync-target#%d" % n, desc,
+                "" if uses_len or guarded else "line %s sets the reader to iov_index + 1 unconditionally: while the current block is still being filled "
+                "that skips it - the block committed next is never delivered and never reported as dropped" % x.get("ln"), x.get("ln"))
+    return n
+
+
+def alloc_rule(rep, u, fname="r_buf_alloc"):
+    """r_buf_alloc refuses a ring smaller than its minimum block (every r_buf_wbuf_get would wrap with block index 0 and
+    record 'last block of the previous round' = (size_t)-1, which readers then use as an index)."""
+    from rules import r_mpt
+    fn = need(u, fname)
+    rep.functions.add(fname)
+    pe = r_stride.PE(u, call_default={"calloc": 0x5000, "mapalloc_fd": 0x800000, "sysconf": 4096, "mapalloc": 0x900000})
+    ev, ret = pe.trace(fn, {fn.params[0]["n"]: 3, fn.params[1]["n"]: 5, fn.params[2]["n"]: 10})
+    desc = "%s(size = 5, min_block_size = 10) is refused" % fname
+    allocated = any(x.get("k") == "call" and x.get("fn") == "calloc" for e, b in ev for x, _ in walk(e))
+    if allocated:
+        rep.violated("R-SPEC", fn, "size-vs-min-block", desc, "the ring is allocated: r_buf_wbuf_get then wraps on every call with iov_index 0 and stores "
+                     "iov_index_max = SIZE_MAX")
+    else:
+        rep.proved("R-SPEC", fn, "size-vs-min-block", desc, "returns before allocating")
+    return 1
+
+
+def byte_position_rule(rep, u, names=("r_buf_rpos_check", "r_buf_rpos_check_fast")):
+    """a reader one round behind is still valid only if the writer has not reached its *bytes*: blocks have variable sizes,
+    so 'reader block index > writer block index' does not imply that the reader's block lies ahead of the write offset
+    (one large block of the new round covers several small ones of the old).  The accepting test that compares the two
+    block indices must also compare the reader block's position with the write offset."""
+    n = 0
+    for nm in names:
+        fn = need(u, nm)
+        rep.functions.add(nm)
+        rb, rp = fn.params[0]["n"], fn.params[1]["n"]
+        for bid in fn.reachable_blocks():
+            c = fn.blocks[bid].cond
+            if c is None:
+                continue
+            c0 = core.strip_imp(c)
+            if not (c0.get("k") == "bin" and c0["op"] in (">", "<") and key(c0) in ("(%s->iov_index>%s->iov_index)" % (rp, rb), "(%s->iov_index<%s->iov_index)" % (rb, rp))):
+                continue
+            # the accepting edge leads (possibly through further && operands) to `return 1`: one of those operands mentions wpos
+            blk = fn.blocks[bid]
+            tgt = blk.succ[0]
+            seen_ = set()
+            mentions = False
+            accepts = False
+            while tgt is not None and tgt not in seen_:
+                seen_.add(tgt)
+                tb = fn.blocks[tgt]
+                if tb.cond is not None:
+                    if "wpos" in key(tb.cond):
+                        mentions = True
+                    if tb.term and tb.term.get("k") == "&&":
+                        tgt = tb.succ[0]
+                        continue
+                    break
+                rets = [e for e in tb.elems if e.get("k") == "ret"]
+                if rets:
+                    accepts = const_val(rets[0].get("e")) == 1
+                    break
+                if len(tb.rsucc()) != 1:
+                    break
+                tgt = tb.rsucc()[0]
+            if blk.term and blk.term.get("k") == "&&" and not accepts:
+                # the index test is the first operand of a conjunction: look at where the whole conjunction leads
+                accepts = True
+            if not accepts:
+                continue            # not an acceptance test (e.g. the choice of the drop formula)
+            n += 1
+            desc = "%s: a previous-round reader is accepted only if its block also lies at or behind the write offset" % nm
+            (rep.proved if mentions else rep.violated)(
+                "R-STATE", fn, "byte-position#%d" % n, desc,
+                "" if mentions else "the test at line %s compares block indices only: after a wrap, one 50-byte block covers five 10-byte blocks of the "
+                "old round and a reader at old block 1 is handed the new block's bytes as if they were in sequence" % c.get("ln"), c.get("ln"))
+    return n
+
+
+def drop_amount_rule(rep, u, fname="r_buf_rpos_check"):
+    """a rejected reader is moved to the writer's position; what it skips is the distance between its old position and the
+    write position, so every non-zero dropped amount is computed from the writer's place *inside* its round (the write
+    offset, or the sum of the blocks up to the write index) - whole rounds alone are exact only when reader and writer
+    happen to stand at the same offset of their rounds."""
+    fn = need(u, fname)
+    rep.functions.add(fname)
+    n = 0
+    for pos, root, x, ps in fn.nodes():
+        if not (x.get("k") == "bin" and x["op"] in ("=", "*=", "+=") and strip_casts(x["x"]).get("k") == "ref" and "drop" in strip_casts(x["x"]).get("n", "")):
+            continue
+        if const_val(x["y"]) == 0:
+            continue
+        k_ = key(x["y"])
+        if x["op"] == "=" and "round_num" in k_ and "size" not in k_:
+            continue                    # the round difference (an intermediate), scaled later
+        n += 1
+        # the value on this path: this statement plus the other non-zero stores to the same variable in the same block
+        blk_keys = " ".join(key(y) for e in fn.blocks[pos[0]].elems for y, _ in walk(e) if y.get("k") == "bin" and y["op"] in ("=", "*=", "+=") and
+                            strip_casts(y["x"]).get("k") == "ref" and strip_casts(y["x"]).get("n") == strip_casts(x["x"]).get("n"))
+        ok = "wpos" in blk_keys or ("iov_index" in blk_keys and "r_buf_iovec_calc_size" in blk_keys)
+        desc = "%s: the dropped amount stored at line %s depends on the writer's position inside its round" % (fname, x.get("ln"))
+        (rep.proved if ok else rep.violated)("R-SPEC", fn, "drop-amount#%d" % n, desc,
+                                             "" if ok else "%s counts whole rounds only: a reader at stream offset 0 that never reads, after 30 blocks of 10 bytes in a "
+                                             "100-byte ring, is told 200 although 300 bytes were skipped" % k_[:80], x.get("ln"))
     return n
 
 
@@ -243,9 +426,21 @@ def writer_spec(rep, u):
     # commit
     m = 0
     bad = undec = None
-    for wpos, off, size_, idx, mx in itertools.product((0, 500, 900), (0, 10, 40), (20, 32, 42, 64, 100), (0, 3), (2, 5)):
+    for wpos, off, size_, idx, mx in itertools.product((0, 500, 900), (0, 10, 40), (20, 32, 42, 64, 100, 120, 150), (0, 3), (2, 5)):
         if size_ > SIZE - wpos:
-            continue            # a commit never exceeds what r_buf_wbuf_get handed out
+            # more than r_buf_wbuf_get handed out: the function's own "not enough space" test must refuse the whole commit
+            pe = r_stride.PE(u)
+            bind = {rb: RB, fs.params[1]["n"]: off, fs.params[2]["n"]: size_, rb + "->size": SIZE, rb + "->wpos": wpos, rb + "->iov": IOV,
+                    rb + "->iov_index": idx, rb + "->min_block_size": 32, rb + "->buf": RING, rb + "->flags": 0, rb + "->iov_index_max": mx,
+                    cur_len_k: 0, cur_base_k: RING + wpos}
+            ev, ret = pe.trace(fs, bind)
+            m += 1
+            if isinstance(ret, str):
+                undec = undec or ret
+            elif ret == 0:
+                bad = bad or "write offset %d: a commit of %d bytes (%d skipped) into the %d bytes left is accepted: the write offset moves past the ring" % (
+                    wpos, size_, off, SIZE - wpos)
+            continue
         pe = r_stride.PE(u)
         bind = {rb: RB, fs.params[1]["n"]: off, fs.params[2]["n"]: size_, rb + "->size": SIZE, rb + "->wpos": wpos, rb + "->iov": IOV,
                 rb + "->iov_index": idx, rb + "->min_block_size": 32, rb + "->buf": RING, rb + "->flags": 0, rb + "->iov_index_max": mx,
@@ -265,7 +460,7 @@ def writer_spec(rep, u):
             if a.get(rb + "->wpos") != wpos or a.get(cur_len_k) != 0:
                 bad = bad or "%s: refused but the ring state changed" % what
             continue
-        exp = {"block length": size_ - off, "block base": RING + wpos + off, "write offset": wpos + size_, "last valid block": max(mx, idx),
+        exp = {"block length": size_ - off, "block base": RING + wpos + off, "write offset": wpos + size_, "last valid block": mx,
                "fragmented flag": 1 if off else 0}
         got = {"block length": a.get(cur_len_k), "block base": a.get(cur_base_k), "write offset": a.get(rb + "->wpos"),
                "last valid block": a.get(rb + "->iov_index_max"), "fragmented flag": (a.get(rb + "->flags") or 0) & 1}
@@ -273,7 +468,7 @@ def writer_spec(rep, u):
             d_ = [k_ for k_ in exp if exp[k_] != got[k_]][0]
             bad = bad or "%s: %s is %s, expected %s" % (what, d_, got[d_], exp[d_])
     desc = ("r_buf_wbuf_set on a commit that fits what was handed out: refused iff empty or below the minimum block; block length = "
-            "committed - skipped, base moved by the skipped bytes, write offset advanced by the whole commit, last valid block kept as maximum")
+            "committed - skipped, base moved by the skipped bytes, write offset advanced by the whole commit, the previous round's last block untouched; a commit larger than the space left is refused")
     (rep.violated if bad else rep.undecided if undec else rep.proved)("R-SPEC", fs, "wbuf-set", desc, bad or undec or "%d classes" % m)
     return n + m
 
@@ -410,6 +605,12 @@ def run(rep, tier):
     rep.floor("orderings (validity)", validity_siblings(rep, u), 1000)
     rep.floor("orderings (resync)", resync_rule(rep, u), 1000)
     rep.floor("block ranges", segment_siblings(rep, u), 3)
+    round_compare_rule(rep, u)
+    alloc_rule(rep, u)
+    rep.floor("dropped-amount formulas", drop_amount_rule(rep, u), 2)
+    rep.floor("previous-round acceptance tests", byte_position_rule(rep, u), 2)
+    rep.floor("stores of the previous round's last block", last_block_writers(rep, u), 1)
+    rep.floor("resynchronisation stores", resync_target_rule(rep, u), 3)
     rep.floor("gather continuation classes", continuation_rule(rep, u), 5)
     rep.floor("writer classes", writer_spec(rep, u), 100)
     nfn, total = memsafe.run_scope(rep, tier, us)
